@@ -111,7 +111,36 @@ def _c09_residue(shape, args, ctx):
                 f'idle pool of capacity {cap!r} (usage {usage!r} after releasing {a!r} and {b!r}) refused a request for {cap!r}')
 
 
-KINDS = {'c09_residue': _c09_residue, 'c12_residue': _c12_residue, 'c19_interval': _c19_interval}
+def _c15_records(shape, args, ctx):
+    """Fractional reservations a and b on a pool of capacity C, taken and released one after the other: after every operation
+    the last 'resource_update' record of the pool must equal (now, usage, capacity) as the pool reports them."""
+    from simprocesd.model import System
+    a, b, cap = args['a'], args['b'], args['cap']
+    system = System()
+    system.simulate(0, print_summary=False)
+    rm = system.resource_manager
+
+    def check(after):
+        recs = system.simulation_data.get('resource_update', {}).get('r', [])
+        live = (system._env.now,
+                rm.get_resource_usage('r'), rm.get_resource_capacity('r'))
+        ctx.require(len(recs) > 0 and tuple(recs[-1]) == live, 'last resource_update record != pool',
+                    f'after {after}: record {tuple(recs[-1]) if recs else None!r}, pool {live!r} (amounts {a!r}, {b!r}, capacity {cap!r})')
+    rm.add_resources('r', cap)
+    check('add_resources')
+    ra = rm.reserve_resources({'r': a})
+    check('first reservation')
+    rb = rm.reserve_resources({'r': b})
+    ctx.require(ra is not None and rb is not None, 'a reservation that fits was refused', f'cap={cap!r} a={a!r} b={b!r}')
+    check('second reservation')
+    ctx.goal('two_fractional_reservations_recorded')
+    ra.release()
+    check('first release')
+    rb.release()
+    check('second release')
+
+
+KINDS = {'c15_records': _c15_records, 'c09_residue': _c09_residue, 'c12_residue': _c12_residue, 'c19_interval': _c19_interval}
 
 
 def run(shape, args, ctx):
